@@ -1,5 +1,6 @@
 import Mieru.Model.SocksAuth
 import Mieru.Proofs.SocksAuth
+import Mieru.Gen.C11
 /-!
 # C11 — with SOCKS5 credentials configured, nothing is proxied without them
 
@@ -90,6 +91,240 @@ theorem noauth_config_behaviour (cfg : Config) (hc : cfg.creds = []) :
   · rcases negotiate_nocreds_replies cfg t hc with h | h | h <;> rw [h] at hpre <;>
       simp [socksVersion, noAuth, userPassAuth, noAcceptableAuth] at hpre
 
+/-- **No credentials configured, the converse**: the negotiation returns nil ONLY for a well-framed offer
+    that contains no-authentication; the reply is then `05 00` and the request reader sees what follows the
+    method list. (Together with `noauth_config_behaviour`: "accepted exactly when offered".) -/
+theorem nocreds_served_only_noauth (cfg : Config) (t rest : List UInt8) (hc : cfg.creds = [])
+    (h : (negotiate cfg t).outcome = .served rest) :
+    ∃ (n : UInt8) (methods : List UInt8), n ≠ 0 ∧ methods.length = n.toNat ∧ noAuth ∈ methods ∧
+      t = socksVersion :: n :: methods ++ rest ∧ (negotiate cfg t).replies = [socksVersion, noAuth] :=
+  negotiate_nocreds_served hc h
+
+/-- the same at `ServeConn`, both placements: an endpoint that authenticates here and has no credentials
+    reaches the dialer / the request reader only after such an offer -/
+theorem nocreds_serveconn_only_noauth (e : Endpoint) (t : List UInt8) (hc : e.cfg.creds = []) (hp : e.authHere = true)
+    (hs : (serveConn e t).dialed = true ∨ (serveConn e t).requestInput ≠ none) :
+    ∃ (n : UInt8) (methods rest : List UInt8), n ≠ 0 ∧ methods.length = n.toNat ∧ noAuth ∈ methods ∧
+      t = socksVersion :: n :: methods ++ rest ∧ (serveConn e t).requestInput = some rest ∧
+      (serveConn e t).replies = [socksVersion, noAuth] := by
+  unfold serveConn at hs ⊢
+  simp only [hp, if_true] at hs ⊢
+  cases ho : (negotiate e.cfg t).outcome with
+  | refused w => simp [ho] at hs
+  | served rest =>
+    obtain ⟨n, m, h1, h2, h3, h4, h5⟩ := negotiate_nocreds_served hc ho
+    exact ⟨n, m, rest, h1, h2, h3, h4, by simp, by simpa using h5⟩
+
+/-! ## The client daemon (`mieru run`): the property over the CONFIGURED pairs -/
+
+/-- the wiring function of pkg/cli/client.go — nil slice, one `append` per configured pair — is the identity:
+    the listener gets exactly the configured pairs, in order, nothing in front, nothing behind -/
+theorem daemon_wiring_is_identity (configured : List Cred) : ingressCredentials configured = configured :=
+  ingressCredentials_eq configured
+
+/-- **The property for the daemon, over what the user configured.**  `mieru run` with a non-empty
+    `socks5Authentication` list: for EVERY transcript, if the proxy server is dialled or the request reader
+    is reached, the transcript presented one of the CONFIGURED pairs (`Presents ⟨configured⟩`), the replies
+    were `05 02 01 00`, and the request reader sees what follows the credentials. -/
+theorem daemon_auth_required (configured : List Cred) (t : List UInt8) (hc : configured ≠ [])
+    (hs : (serveConn (daemonEndpoint configured) t).dialed = true ∨ (serveConn (daemonEndpoint configured) t).requestInput ≠ none) :
+    ∃ rest, Presents ⟨configured⟩ t rest ∧ (serveConn (daemonEndpoint configured) t).requestInput = some rest ∧
+      (serveConn (daemonEndpoint configured) t).replies = [socksVersion, userPassAuth, userPassVersion, authSuccess] := by
+  have he : daemonEndpoint configured = ⟨true, true, ⟨configured⟩⟩ := by
+    unfold daemonEndpoint; rw [ingressCredentials_eq]
+  rw [he] at hs ⊢
+  exact auth_required_full ⟨true, true, ⟨configured⟩⟩ t hc rfl hs
+
+/-- configuration validation (`ValidateClientConfigPatch`) accepts only pairs with a non-empty user AND a
+    non-empty password; then an RFC 1929 message with an empty user or an empty password is never served by
+    the daemon: whatever is served carried a pair whose two fields are non-empty -/
+theorem daemon_empty_fields_never_served (configured : List Cred) (t : List UInt8) (hc : configured ≠ [])
+    (hv : ∀ c ∈ configured, c.user ≠ [] ∧ c.pass ≠ [])
+    (hs : (serveConn (daemonEndpoint configured) t).dialed = true ∨ (serveConn (daemonEndpoint configured) t).requestInput ≠ none) :
+    ∃ (methods : List UInt8) (c : Cred) (n ul pl : UInt8) (rest : List UInt8), c ∈ configured ∧ ul ≠ 0 ∧ pl ≠ 0 ∧
+      methods.length = n.toNat ∧
+      t = socksVersion :: n :: methods ++ userPassVersion :: ul :: c.user ++ pl :: c.pass ++ rest := by
+  obtain ⟨rest, ⟨m, c, n, ul, pl, h1, _, h3, _, h5, h6, h7⟩, _, _⟩ := daemon_auth_required configured t hc hs
+  obtain ⟨hu, hp⟩ := hv c h1
+  refine ⟨m, c, n, ul, pl, rest, h1, ?_, ?_, h3, h7⟩
+  · intro e; apply hu; rw [e] at h5; exact List.eq_nil_of_length_eq_zero (by simpa using h5)
+  · intro e; apply hp; rw [e] at h6; exact List.eq_nil_of_length_eq_zero (by simpa using h6)
+
+/-! ## Ties (T): regenerated from the working tree (`Mieru.Gen.C11`, tools/goextract/c11facts.go) -/
+
+/-- the model's protocol constants are the repository's (apis/constant/socks5.go) -/
+theorem auth_constants_expected :
+    socksVersion.toNat = Gen.C11.socks5Version ∧ noAuth.toNat = Gen.C11.socks5NoAuth ∧
+    userPassAuth.toNat = Gen.C11.socks5UserPassAuth ∧ noAcceptableAuth.toNat = Gen.C11.socks5NoAcceptableAuth ∧
+    userPassVersion.toNat = Gen.C11.socks5UserPassAuthVersion ∧ authSuccess.toNat = Gen.C11.socks5AuthSuccess ∧
+    authFailure.toNat = Gen.C11.socks5AuthFailure := by decide
+
+/-- `handleAuthentication` as written: version read and check → method count read, 0 refused → method list
+    read → `requestNoAuth`/`requestUserPassAuth` collected → CREDENTIALS CONFIGURED CLEARS no-authentication →
+    neither: `05 FF` → no-authentication: `05 00` → user/password: no credentials refused without reply, `05 02`,
+    sub-negotiation version read and check, ULEN, user, PLEN, password → first pair with `c.User == userStr &&
+    c.Password == passwordStr` (BOTH, bytewise): `01 00` and nil → otherwise `01 01` and an error.  This is
+    `negotiate`/`userPass` line by line; the 14 `Refusal` constructors are its error returns that are not
+    write failures, in this order. -/
+theorem handle_authentication_order_expected :
+    Gen.C11.handleAuthenticationSkeleton =
+      ["common.SetReadTimeout(conn, s.config.HandshakeTimeout)",
+       "defer common.SetReadTimeout(conn, 0)",
+       "version := []byte{0}",
+       "if _, err := io.ReadFull(conn, version); err != nil {",
+       "  return fmt.Errorf(…)",
+       "}",
+       "if version[0] != constant.Socks5Version {",
+       "  return fmt.Errorf(…)",
+       "}",
+       "nAuthMethods := []byte{0}",
+       "if _, err := io.ReadFull(conn, nAuthMethods); err != nil {",
+       "  return fmt.Errorf(…)",
+       "}",
+       "if nAuthMethods[0] == 0 {",
+       "  return fmt.Errorf(…)",
+       "}",
+       "requestNoAuth := false",
+       "requestUserPassAuth := false",
+       "authMethods := make([]byte, nAuthMethods[0])",
+       "if _, err := io.ReadFull(conn, authMethods); err != nil {",
+       "  return fmt.Errorf(…)",
+       "}",
+       "for _, method := range authMethods {",
+       "  if method == constant.Socks5NoAuth {",
+       "    requestNoAuth = true",
+       "  }",
+       "  if method == constant.Socks5UserPassAuth {",
+       "    requestUserPassAuth = true",
+       "  }",
+       "}",
+       "if len(s.config.AuthOpts.IngressCredentials) > 0 {",
+       "  requestNoAuth = false",
+       "}",
+       "if !requestNoAuth && !requestUserPassAuth {",
+       "  if _, err := conn.Write([]byte{constant.Socks5Version, constant.Socks5NoAcceptableAuth}); err != nil {",
+       "    return fmt.Errorf(…)",
+       "  }",
+       "  return fmt.Errorf(…)",
+       "}",
+       "if requestNoAuth {",
+       "  if _, err := conn.Write([]byte{constant.Socks5Version, constant.Socks5NoAuth}); err != nil {",
+       "    return fmt.Errorf(…)",
+       "  }",
+       "} else if requestUserPassAuth {",
+       "  if len(s.config.AuthOpts.IngressCredentials) == 0 {",
+       "    return fmt.Errorf(…)",
+       "  }",
+       "  if _, err := conn.Write([]byte{constant.Socks5Version, constant.Socks5UserPassAuth}); err != nil {",
+       "    return fmt.Errorf(…)",
+       "  }",
+       "  header := []byte{0}",
+       "  if _, err := io.ReadFull(conn, header); err != nil {",
+       "    return fmt.Errorf(…)",
+       "  }",
+       "  if header[0] != constant.Socks5UserPassAuthVersion {",
+       "    return fmt.Errorf(…)",
+       "  }",
+       "  if _, err := io.ReadFull(conn, header); err != nil {",
+       "    return fmt.Errorf(…)",
+       "  }",
+       "  user := make([]byte, header[0])",
+       "  if _, err := io.ReadFull(conn, user); err != nil {",
+       "    return fmt.Errorf(…)",
+       "  }",
+       "  if _, err := io.ReadFull(conn, header); err != nil {",
+       "    return fmt.Errorf(…)",
+       "  }",
+       "  password := make([]byte, header[0])",
+       "  if _, err := io.ReadFull(conn, password); err != nil {",
+       "    return fmt.Errorf(…)",
+       "  }",
+       "  userStr := string(user)",
+       "  passwordStr := string(password)",
+       "  for _, c := range s.config.AuthOpts.IngressCredentials {",
+       "    if c.User == userStr && c.Password == passwordStr {",
+       "      if _, err := conn.Write([]byte{constant.Socks5UserPassAuthVersion, constant.Socks5AuthSuccess}); err != nil {",
+       "        return fmt.Errorf(…)",
+       "      }",
+       "      return nil",
+       "    }",
+       "  }",
+       "  if _, err := conn.Write([]byte{constant.Socks5UserPassAuthVersion, constant.Socks5AuthFailure}); err != nil {",
+       "    return fmt.Errorf(…)",
+       "  }",
+       "  return fmt.Errorf(…)",
+       "}",
+       "return nil"] ∧
+    -- the returns in source order: 14 plain errors (= the 14 `Refusal` constructors, in this order), 6 failed writes
+    -- (to a peer that is gone: nothing is served either), and nil exactly after `01 00` / after `05 00`
+    Gen.C11.handleAuthenticationReturns =
+      ["error", "error", "error", "error", "error", "write-failed", "error", "write-failed", "error", "write-failed",
+       "error", "error", "error", "error", "error", "error", "write-failed", "nil", "write-failed", "error", "nil"] := by
+  refine ⟨by decide +kernel, by decide⟩
+
+/-- placement, as written: in `clientServeConn` `ProxyDialer.DialContext` comes AFTER `handleAuthentication`, which
+    runs under `if ClientSideAuthentication` and whose error is returned at once; in `serverServeConn` `readRequest`
+    comes after it, under `if !ClientSideAuthentication` — `serveConn`/`authHere` -/
+theorem placement_expected :
+    Gen.C11.clientServeConnHead =
+      ["if s.config.AuthOpts.ClientSideAuthentication {",
+       "  if err := s.handleAuthentication(userConn); err != nil {",
+       "    return err",
+       "  }",
+       "}",
+       "proxyConn, err := s.config.ProxyDialer.DialContext(context.Background())",
+       "if err != nil {",
+       "  return fmt.Errorf(…)",
+       "}"] ∧
+    Gen.C11.clientServeConnEvents.take 4 =
+      ["s.handleAuthentication", "s.config.ProxyDialer.DialContext", "s.proxySocks5AuthReq", "proxyConn.Close"] ∧
+    (Gen.C11.clientServeConnEvents.filter (· == "s.config.ProxyDialer.DialContext")).length = 1 ∧
+    Gen.C11.clientServeConnAuthGuards = ["s.config.AuthOpts.ClientSideAuthentication"] ∧
+    Gen.C11.serverServeConnHead.take 7 =
+      ["if !s.config.AuthOpts.ClientSideAuthentication {",
+       "  if err := s.handleAuthentication(proxyConn); err != nil {",
+       "    return err",
+       "  }",
+       "}",
+       "ctx := context.Background()",
+       "request, err := s.readRequest(proxyConn)"] ∧
+    Gen.C11.serverServeConnEvents.take 2 = ["s.handleAuthentication", "s.readRequest"] ∧
+    (Gen.C11.serverServeConnEvents.filter (· == "s.readRequest")).length = 1 ∧
+    Gen.C11.serverServeConnAuthGuards = ["!s.config.AuthOpts.ClientSideAuthentication"] := by
+  refine ⟨by decide, by decide, by decide, by decide, by decide, by decide, by decide, by decide⟩
+
+/-- **the daemon's wiring, as written** (`clientRunFunc`): the credential slice starts as the nil slice (no pre-sized
+    `make`), gets exactly one `append` of `{User: auth.GetUser(), Password: auth.GetPassword()}` per configured pair, and
+    is handed to `socks5.New` as `IngressCredentials` together with `UseProxy: true` and `ClientSideAuthentication: true`
+    — `ingressCredentials` / `daemonEndpoint`; nothing else assigns it -/
+theorem client_daemon_wiring_expected :
+    Gen.C11.daemonSocks5Wiring.take 6 =
+      ["var socks5IngressCredentials []socks5.Credential",
+       "for _, auth := range config.GetSocks5Authentication() {",
+       "  socks5IngressCredentials = append(socks5IngressCredentials, socks5.Credential{ User: auth.GetUser(), Password: auth.GetPassword(), })",
+       "socks5Config := &socks5.Config{ UseProxy: true, AuthOpts: socks5.Auth{ ClientSideAuthentication: true, IngressCredentials: socks5IngressCredentials, }, ProxyDialer: mux, Resolver: resolver, HandshakeTimeout: 10 * time.Second, }",
+       "  socks5Config.HandshakeNoWait = true",
+       "socks5Server, err := socks5.New(socks5Config)"] ∧
+    Gen.C11.daemonIngressCredentialLines = Gen.C11.daemonSocks5Wiring.take 1 ++ (Gen.C11.daemonSocks5Wiring.drop 2).take 2 := by
+  refine ⟨by decide +kernel, by decide +kernel⟩
+
+/-- stated configuration fact: the daemon refuses to run the HTTP proxy front end (which talks to the SOCKS5
+    listener WITHOUT credentials) together with `socks5Authentication`: inside `if config.GetHttpProxyPort() != 0`
+    the FIRST statement is `if len(config.GetSocks5Authentication()) > 0 { log.Fatalf(…) }` (polarity `> 0`),
+    before the goroutine that starts the HTTP server; and validation rejects an empty user or password -/
+theorem http_proxy_refused_with_credentials :
+    Gen.C11.daemonHTTPGuard =
+      ["outer: config.GetHttpProxyPort() != 0",
+       "stmt 0: if len(config.GetSocks5Authentication()) > 0",
+       "  calls log.Fatalf",
+       "stmt 2: go func starts the HTTP proxy server"] ∧
+    Gen.C11.validateSocks5Authentication =
+      ["for _, auth := range patch.GetSocks5Authentication() {",
+       "  if auth.GetUser() == \"\" {", "    return fmt.Errorf(…)", "  }",
+       "  if auth.GetPassword() == \"\" {", "    return fmt.Errorf(…)", "  }",
+       "}"] := by
+  refine ⟨by decide, by decide⟩
+
 /-! ### non-vacuity and regressions -/
 
 def alice : Cred := ⟨[0x61], [0x70, 0x77]⟩
@@ -117,5 +352,24 @@ example : (negotiate cfg2 [5, 1, 0]).replies = [5, 0xFF] ∧ (negotiate cfg2 [5,
 /-- no credentials: no-auth accepted among others, user/pass alone refused -/
 example : (negotiate ⟨[]⟩ [5, 2, 2, 0, 9]).outcome = .served [9] ∧
     (negotiate ⟨[]⟩ [5, 1, 2, 1, 1, 0x61, 0]).outcome = .refused .noRegisteredUser := by decide
+
+/-- the daemon with two configured pairs: its listener has exactly those two; REGRESSION of seeded change
+    C11-4 (a pre-sized `make` + `append` puts n empty pairs in front): `05 01 02 01 00 00` — user/password
+    selected, empty user, empty password — is refused with `01 01`, the proxy is not dialled; each single
+    empty field likewise; the configured pair is served -/
+example : (daemonEndpoint [alice, ⟨[0x62], [0x70]⟩]).cfg.creds = [alice, ⟨[0x62], [0x70]⟩] ∧
+    (serveConn (daemonEndpoint [alice, ⟨[0x62], [0x70]⟩]) [5, 1, 2, 1, 0, 0, 5, 1, 0, 1, 1, 2, 3, 4, 0, 80]).replies = [5, 2, 1, 1] ∧
+    (serveConn (daemonEndpoint [alice, ⟨[0x62], [0x70]⟩]) [5, 1, 2, 1, 0, 0, 5, 1, 0, 1, 1, 2, 3, 4, 0, 80]).dialed = false ∧
+    (serveConn (daemonEndpoint [alice, ⟨[0x62], [0x70]⟩]) [5, 1, 2, 1, 1, 0x61, 0, 5, 1, 0, 1, 1, 2, 3, 4, 0, 80]).dialed = false ∧
+    (serveConn (daemonEndpoint [alice, ⟨[0x62], [0x70]⟩]) [5, 1, 2, 1, 0, 2, 0x70, 0x77, 5, 1, 0, 1, 1, 2, 3, 4, 0, 80]).dialed = false ∧
+    (serveConn (daemonEndpoint [alice, ⟨[0x62], [0x70]⟩]) [5, 1, 2, 1, 1, 0x61, 2, 0x70, 0x77, 5, 1, 0, 1, 1, 2, 3, 4, 0, 80]).dialed = true := by
+  decide
+
+/-- the hypotheses of `daemon_empty_fields_never_served` are met (validated pairs have non-empty fields) -/
+example : ∀ c ∈ [alice, (⟨[0x62], [0x70]⟩ : Cred)], c.user ≠ [] ∧ c.pass ≠ [] := by decide
+
+/-- no credentials: what is served is exactly "a well-framed offer containing no-auth" -/
+example : (negotiate ⟨[]⟩ [5, 3, 1, 0, 2, 7, 7]).outcome = .served [7, 7] ∧
+    (serveConn ⟨false, false, ⟨[]⟩⟩ [5, 1, 0, 9]).requestInput = some [9] := by decide
 
 end Mieru.C11
